@@ -93,14 +93,14 @@ def one(ctx, S, coef, parity, crit, maxiter):
 
 
 def run(tier, seed):
-    ctx = core.Ctx(PROP, tier, seed, "translation_validation", ["C13"])
+    ctx = core.Ctx(PROP, tier, seed, "translation_validation", ["C13", "C13Flow"])
     ctx.axioms = core.audit(ctx.modules)
     import pyqsp.sym_qsp_opt as S
     rng = ctx.rng
     q = tier == "quick"
     ks = [1, 2, 3, 4, 5, 6, 8, 10, 14, 20, 30, 45, 60, 80] if q else list(range(1, 81))
     for k in ks:
-        for rep in range(2 if q else 3):
+        for rep in range(5 if q else 6):
             parity = int(rng.choice([0, 1]))
             v = rng.normal(size=k)
             style = rng.random()
@@ -129,7 +129,7 @@ def run(tier, seed):
 def replay(path):
     import json
     c = json.load(open(path))
-    ctx = core.Ctx(PROP, "quick", c.get("seed", 0), "translation_validation", ["C13"])
+    ctx = core.Ctx(PROP, "quick", c.get("seed", 0), "translation_validation", ["C13", "C13Flow"])
     import pyqsp.sym_qsp_opt as S
     one(ctx, S, c["coef"], c["parity"], c.get("crit"), c.get("maxiter"))
     for sig, what, p, _ in ctx.violations:
